@@ -25,6 +25,7 @@ EXPLANATION = (
     "(LEN) ValueError guards on key/IV/data lengths complete before any block is processed or any value returned; (WRAP) "
     "the CryptAES wrapper draws a fresh IV inside each encrypt call, prepends it, pads before encrypting and unpads after "
     "decrypting; (PATCH) all three pypdf modules get all four AES functions and CryptAES."
+    " (MIX, continued) (inv_)shift_rows are interpreted over the 16 positions of the state (opaque tokens) and the resulting permutation is compared with FIPS-197's; a function that rebinds its parameter leaves the caller's state untouched. (KEY, continued) the key schedule handed out by the per-key cache is read only: no in-place reverse / sort / item assignment by its receivers."
 )
 NOT_DECIDED = ["numerical equality with FIPS-197 for every key/block: _MULk, _RCON and round keys are computed at import/run time by "
                "_xtime/_gf_mul/_expand_key; evaluating them would be running the program, proving them is solver territory",
